@@ -1,5 +1,6 @@
 from __future__ import annotations
 
+import copy
 import math
 from collections import Counter
 from typing import Sequence, Type, TypeVar, Mapping
@@ -49,6 +50,19 @@ class StateVector(State[complex, torch.Tensor]):
         super().__init__(eigenstates=eigenstates)
         device = "cuda" if gpu and DEVICE_COUNT > 0 else "cpu"
         self.data = vector.to(dtype=dtype, device=device)
+
+    def __deepcopy__(self, memo: dict) -> "StateVector":
+        # torch only deep-copies graph leaves; clone keeps the autograd graph
+        # (pulser's StateResult deep-copies the state it stores)
+        result = self.__class__.__new__(self.__class__)
+        memo[id(self)] = result
+        for key, value in self.__dict__.items():
+            result.__dict__[key] = (
+                value.clone()
+                if isinstance(value, torch.Tensor)
+                else copy.deepcopy(value, memo)
+            )
+        return result
 
     @property
     def n_qudits(self) -> int:
